@@ -98,7 +98,52 @@ def fantasy_model(c, shared, with_noise):
                        z3.Implies(i < m.t, t0.at_dims(fb + [n.t + i, k]) == Xf.at([i, k]))) if len(t0.dims) == len(fb) + 2 else z3.BoolVal(False))
 
 
+def _fantasy_independent_of_source():
+    """the fantasy model is a model of its own: it shares no parameter with its source, and assigning a hyperparameter of the FANTASY model through the public
+    setter leaves the source's predictions unchanged (for a homoskedastic and a fixed-noise likelihood)"""
+    import torch
+    import gpytorch
+    torch.manual_seed(1)
+    bad = []
+    X, y = torch.rand(6, 1, dtype=torch.double), torch.randn(6, dtype=torch.double)
+    Xf, yf, Xs = torch.rand(2, 1, dtype=torch.double), torch.randn(2, dtype=torch.double), torch.rand(3, 1, dtype=torch.double)
+
+    class G(gpytorch.models.ExactGP):
+        def __init__(self, lik):
+            super().__init__(X, y, lik)
+            self.mean_module, self.covar_module = gpytorch.means.ConstantMean(), gpytorch.kernels.ScaleKernel(gpytorch.kernels.RBFKernel())
+
+        def forward(self, x):
+            return gpytorch.distributions.MultivariateNormal(self.mean_module(x), self.covar_module(x))
+
+    for name, lik, kw in (("gaussian", gpytorch.likelihoods.GaussianLikelihood(), {}),
+                          ("fixed_noise", gpytorch.likelihoods.FixedNoiseGaussianLikelihood(torch.full((6,), 0.3, dtype=torch.double), learn_additional_noise=True), {"noise": torch.full((2,), 0.2, dtype=torch.double)})):
+        g = G(lik.double()).double()
+        g.eval()
+        with torch.no_grad():
+            g(Xs)
+            before = g.likelihood(g(Xs), **({"noise": torch.full((3,), 0.1, dtype=torch.double)} if kw else {}))
+            b_mean, b_cov = before.mean.clone(), before.covariance_matrix.clone()
+            fm = g.get_fantasy_model(Xf, yf, **kw)
+            shared = {id(p) for p in g.parameters()} & {id(p) for p in fm.parameters()}
+            if shared:
+                bad.append(f"{name}: the fantasy model shares {len(shared)} parameter tensor(s) with its source")
+            if name == "gaussian":
+                fm.likelihood.noise = float(fm.likelihood.noise) * 3.0
+            else:
+                fm.likelihood.second_noise = float(fm.likelihood.second_noise) * 3.0
+            fm.covar_module.outputscale = float(fm.covar_module.outputscale) * 2.0
+            after = g.likelihood(g(Xs), **({"noise": torch.full((3,), 0.1, dtype=torch.double)} if kw else {}))
+            if not (torch.equal(after.mean, b_mean) and torch.equal(after.covariance_matrix, b_cov)):
+                bad.append(f"{name}: assigning hyperparameters of the FANTASY model changed the source's predictive distribution by {(after.covariance_matrix - b_cov).abs().max().item():.2e}")
+    return bad
+
+
 def replay_c04(model, params, clause, info):
+    if "likelihood_is_the_fantasy_likelihood" in clause or "returns_a_new_model" in clause:
+        bad = _fantasy_independent_of_source()
+        if bad:
+            return {"violates": True, "detail": "; ".join(bad)[:700], "entry": {"module": "contracts.C04_fantasy", "function": "replay_c04", "args": [model, list(params), clause, info]}}
     try:
         from bounded import C04_fantasies as Bd
     except Exception as e:  # noqa: BLE001
